@@ -1681,6 +1681,62 @@ def gen_label_case(r, tier):
     return {"kind": "label", "names": names, "bname": nm(r.choice([3, 19, 24]))}
 
 
+
+# ------------------------------------------------------------------ what is on disk before the end of the run
+def disk_scenario(c, k):
+    v = {"id": 0, "type": "z", "value": True, "velocity": c["vel"]}
+    L = ["echo CASE %d" % k, "natoms 2", "temperature 300", "dt 1.0", "prefix c%ds0" % k, "restartfreq %d" % c["R"], "new"]
+    if c["it0"]:
+        L.append("setstep %d" % c["it0"])
+    L += heredoc(["colvarsTrajFrequency %d" % c["freq"]] + var_block(v)) + ["show atomf 0 cv 0 bias 0 energy 0"]
+    for j, x in enumerate(c["xs"]):
+        L += ["pos 1 0 0 %s" % hx(x), "step", "diskcopy c%ds0.colvars.traj snap_%d_%d" % (k, k, j)]
+    L += ["flush", "restartfreq 0", "echo END %d" % k]
+    return L
+
+
+def check_disk_case(run, c, k, impl_lines, scratch, model):
+    replay = {"kind": "disk", "case": c}
+    final = open(os.path.join(scratch, "c%ds0.colvars.traj" % k)).read().split("\n") if os.path.exists(os.path.join(scratch, "c%ds0.colvars.traj" % k)) else []
+    final = [l for l in final if l]
+    its = [c["it0"] + j for j in range(len(c["xs"]))]
+    cfg = enc_cfg([{"id": 0, "type": "z", "value": True, "velocity": c["vel"]}], [])
+    rc, mout, err = V.run_lines(model, ["DISK %d %d %d %s %d %s" % (c["R"], c["freq"], c["it0"], " ".join(cfg), len(its), " ".join(str(i) for i in its))])
+    if rc != 0 or len(mout) != 1:
+        run.mismatch("disk-model", c, err[-300:], mout[:2])
+        return 0
+    counts = [int(q) for q in mout[0].split()]
+    n = 0
+    for j, it in enumerate(its):
+        sp = os.path.join(scratch, "snap_%d_%d" % (k, j))
+        txt = open(sp).read() if os.path.exists(sp) else ""
+        snap = [l for l in txt.split("\n") if l]
+        complete = snap if txt.endswith("\n") or not txt else snap[:-1]
+        n += 1
+        run.dist("oracle:disk-snapshot")
+        # oracle: every line written up to the last step on the restart grid is on disk; nothing that is not in the final file
+        synced = [i for i in its[:j + 1] if c["R"] and i % c["R"] == 0]
+        must = 0
+        if synced:
+            last = synced[-1]
+            must = len([l for l in final if l.startswith("#") is False and int(l.split()[0]) <= last])
+        have = len([l for l in complete if not l.startswith("#")])
+        if complete != final[:len(complete)]:
+            run.violation("disk:not-a-prefix", "after step %d the file on disk is not a prefix of the final file" % it, replay)
+        elif have < must:
+            run.violation("disk:lines-missing-after-sync", "after step %d (restart frequency %d) the file on disk has %d data lines; %d were written up to "
+                          "the last synchronisation" % (it, c["R"], have, must), replay)
+        # tie: with small outputs the stream never spills, the disk is exactly what the model says
+        if len(complete) != counts[j]:
+            run.mismatch("disk-lines", c, (it, len(complete)), (it, counts[j]))
+    return n
+
+
+def gen_disk_case(r, tier):
+    return {"kind": "disk", "freq": r.choice([1, 1, 2, 3]), "R": r.choice([0, 2, 3, 4, 5]), "it0": r.choice([0, 0, r.randint(1, 20), 999]),
+            "vel": r.random() < 0.5, "xs": [V.dyadic(r, -4, 4, 3) for _ in range(r.randint(3, 12))]}
+
+
 # ------------------------------------------------------------------ correlation function cases
 def acf_scenario(c, k):
     ty = c["vtype"]
@@ -1946,8 +2002,8 @@ def corpus_cases():
     return cs
 
 
-SCEN = {"traj": traj_scenario, "runave": runave_scenario, "acf": acf_scenario, "runavev": runavev_scenario, "out": out_scenario, "label": label_scenario}
-CHECK = {"traj": check_traj_case, "runave": check_runave_case, "acf": check_acf_case, "runavev": check_runavev_case, "out": check_out_case, "label": check_label_case}
+SCEN = {"traj": traj_scenario, "runave": runave_scenario, "acf": acf_scenario, "runavev": runavev_scenario, "out": out_scenario, "label": label_scenario, "disk": disk_scenario}
+CHECK = {"traj": check_traj_case, "runave": check_runave_case, "acf": check_acf_case, "runavev": check_runavev_case, "out": check_out_case, "label": check_label_case, "disk": check_disk_case}
 
 
 def run_cases(run, cases, unit, model, scratch):
@@ -1992,6 +2048,8 @@ def run_cases(run, cases, unit, model, scratch):
             run.dist("runave:L=%d,stride=%d" % (c["L"], c["stride"]))
         elif c["kind"] == "label":
             run.dist("label")
+        elif c["kind"] == "disk":
+            run.dist("disk:R=%d" % c["R"])
         elif c["kind"] == "out":
             run.dist("out:R=%d" % c["R"])
         elif c["kind"] == "runavev":
@@ -2040,6 +2098,8 @@ def check(run):
         cases.append(gen_out_case(r, run.tier))
     for _ in range(30 * mult):
         cases.append(gen_label_case(r, run.tier))
+    for _ in range(30 * mult):
+        cases.append(gen_disk_case(r, run.tier))
     total = run_cases(run, cases, unit, model, scratch)
     run.cov["rule"] = ("a case is one scenario (trajectory / running average / correlation function) driven through the engine "
                        "simulator; distinct = distinct configuration+length; nontrivial = at least one written number was compared")
